@@ -112,23 +112,23 @@ def check_C02(run):
 
 def check_C03(run):
     q = Q(run)
-    mc = [dict(name='mc-c03', consts=dict(Keys='{1}', Metas='{0}', MaxRecs='0'), max_ops=2 if q else 4, max_blob=2, timeout=3600,
+    mc = [dict(name='mc-c03', consts=dict(Keys='{1}', Metas='{0}', MaxRecs='0'), max_ops=2 if q else 3, max_blob=2, timeout=3600,
                acts=['write', 'delete', 'close_active', 'restore_active', 'dump_idx', 'restart']),
           dict(name='mc-c03-full', consts=dict(Keys='{1}', MaxTs='1', Metas='{0}', MaxRecs='0'), max_ops=2 if q else 3, max_blob=2, timeout=3600,
                acts=['write', 'delete', 'close_active', 'create_active', 'dump_idx', 'restart_full'])]
     suites = [
         dict(name='restart-2k', consts=dict(Keys='{1, 2}', MaxTs='2'), genlen=4,
              acts=['write', 'delete', 'close_active', 'restore_active', 'restart'],
-             restarts_set=store.restarts(), nkeys=2, sample=(1, 40) if q else (1, 2)),
+             restarts_set=store.restarts(), nkeys=2, sample=(1, 40) if q else (1, 8)),
         dict(name='restart-quarantine', consts=dict(Keys='{1}', MaxTs='1'), genlen=5 if q else 6,
              acts=['write', 'delete', 'close_active', 'restart', 'restart_corrupt'],
-             restarts_set=store.restarts(gs=(True,), dmgs=('keep',)), nkeys=1, sample=(1, 8) if q else (1, 1)),
+             restarts_set=store.restarts(gs=(True,), dmgs=('keep',)), nkeys=1, sample=(1, 8) if q else (1, 3)),
         dict(name='restart-ignore', consts=dict(Keys='{1}', MaxTs='1', IgnoreCorrupted='TRUE'), genlen=5 if q else 6,
              acts=['write', 'delete', 'close_active', 'restart', 'restart_corrupt'], hcfg_overrides=dict(ignore_corrupted=True),
-             restarts_set=store.restarts(gs=(True,), dmgs=('keep',)), nkeys=1, sample=(1, 8) if q else (1, 1)),
+             restarts_set=store.restarts(gs=(True,), dmgs=('keep',)), nkeys=1, sample=(1, 8) if q else (1, 3)),
         dict(name='restart-stale', consts=dict(Keys='{1}', MaxTs='2', DeferredFires='FALSE'), genlen=5,
              acts=['write', 'delete', 'close_active', 'restart'], hcfg_overrides=dict(deferred_fires=False),
-             restarts_set=store.restarts(dmgs=('keep', 'stale')), nkeys=1, sample=(1, 10) if q else (1, 1)),
+             restarts_set=store.restarts(dmgs=('keep', 'stale')), nkeys=1, sample=(1, 10) if q else (1, 3)),
         dict(name='sim', consts=dict(Keys='{1, 2}', MaxTs='3', Metas='{0, 1}'), genlen=24,
              acts=['write', 'delete', 'restart', 'force_update', 'create_active', 'close_active', 'restore_active'],
              restarts_set=store.restarts(), nkeys=2, simulate=300 if q else 6000, workers=1 if q else 8),
